@@ -4,7 +4,8 @@ correspondence: Lean model (D3/Model/Hydro.lean) vs the 2-D kernels of _halfplan
 contact_plane, check_tetrahedra_intersect_contact_plane, compute_contact_polygon, intersect_tetrahedron_pair and
 compute_contact_force (np.linalg.solve is a parameter of the model: the harness hands the inverse matrix over);
 search: definition-level oracle on the real code (exact rational barycentric coordinates, plane residual,
-orientation of consecutive edge cross products, force direction, argument swap, separating-axis test).
+orientation of consecutive edge cross products, force direction, equal pressure at the vertices, argument swap,
+separating-axis test).
 """
 import itertools
 import math
@@ -31,6 +32,7 @@ EXPLANATION = ("the theorems are about the Lean model at exact real arithmetic f
 EPS = float(np.finfo(float).eps)
 F_SAME = "F-C15-same-branch"
 F_BUF = "F-C15-halfplane-buffer"
+F_DROP = "F-C15-vertex-drop"
 
 
 # =================================================================== small exact linear algebra
@@ -199,8 +201,7 @@ def run_pair(case, swap=False):
 def same_branch_class(case, res):
     """Is this call in the input class of finding F_SAME?  Decided from the *inputs* only (independent
     recomputation of the un-normalised equal-pressure plane): the potential gradients coincide (normal part zero)
-    or the normalised offset is below 10*EPSILON (plane through the origin of the common frame), while the two
-    tetrahedra are not the same point set."""
+    or the normalised offset is below 10*EPSILON (plane through the origin of the common frame)."""
     X1, X2 = np.asarray(res["X1"]), np.asarray(res["X2"])
     e1 = np.asarray(case["e1"], dtype=float) * float(case["E1"])
     e2 = np.asarray(case["e2"], dtype=float) * float(case["E2"])
@@ -210,11 +211,7 @@ def same_branch_class(case, res):
         deg = True
     else:
         deg = abs(raw[3] / nrm) < 1e3 * EPS        # generous: the decision of the code is at 10*EPS
-    if not deg:
-        return False
-    s1 = sorted(map(tuple, np.asarray(case["t1"], dtype=float).tolist()))
-    s2 = sorted(map(tuple, np.asarray(case["t2"], dtype=float).tolist()))
-    return s1 != s2
+    return deg
 
 
 def plane_basis(n):
@@ -279,6 +276,41 @@ def oracle_polygon(t1, t2, plane, poly, tol_rel=1e-9):
     return bad
 
 
+def polygon_area(normal, poly):
+    """area of the convex hull of the reported vertices projected to the plane (independent of their order)"""
+    P = np.asarray(poly, dtype=float).reshape(-1, 3)
+    if len(P) < 3 or not np.all(np.isfinite(P)) or not np.all(np.isfinite(normal)) or np.linalg.norm(normal) < 0.5:
+        return 0.0
+    u, v = plane_basis(normal)
+    H = hull2d([(float(np.dot(q, u)), float(np.dot(q, v))) for q in P])
+    if len(H) < 3:
+        return 0.0
+    return 0.5 * abs(sum(H[k][0] * H[(k + 1) % len(H)][1] - H[(k + 1) % len(H)][0] * H[k][1] for k in range(len(H))))
+
+
+def oracle_equal_pressure(case, res, scale):
+    """the reported plane is the *contact* plane: at every polygon vertex the two pressure fields (potential
+    interpolated with independently computed barycentric coordinates, times Young's modulus) agree"""
+    t1, t2 = np.asarray(case["t1"], dtype=float), np.asarray(case["t2"], dtype=float)
+    w1 = np.asarray(case["e1"], dtype=float) * float(case["E1"])
+    w2 = np.asarray(case["e2"], dtype=float) * float(case["E2"])
+    try:
+        A1 = np.linalg.inv(np.vstack((t1.T, np.ones((1, 4)))))
+        A2 = np.linalg.inv(np.vstack((t2.T, np.ones((1, 4)))))
+    except np.linalg.LinAlgError:
+        return []
+    g = float(np.linalg.norm(w1.dot(A1)[:3]) + np.linalg.norm(w2.dot(A2)[:3]))
+    tol = 1e-7 * g * scale + 1e-9 * float(max(np.max(np.abs(w1)), np.max(np.abs(w2)), 1e-300))
+    out = []
+    for k, P in enumerate(np.asarray(res["poly"], dtype=float)):
+        x = np.append(P, 1.0)
+        p1, p2 = float(w1.dot(A1.dot(x))), float(w2.dot(A2.dot(x)))
+        if abs(p1 - p2) > tol:
+            out.append(("vertex-not-on-equal-pressure-surface", {"vertex": k, "pressure1": p1, "pressure2": p2}))
+            break
+    return out
+
+
 def oracle_pair(case, res, res_swapped):
     """Property oracle for one tetrahedron pair.  returns list of (what, detail)."""
     bad = []
@@ -292,6 +324,7 @@ def oracle_pair(case, res, res_swapped):
         bad += oracle_polygon(t1, t2, plane, res["poly"])
         if tets_separated(t1, t2, 1e-7 * scale):
             bad.append(("intersection-reported-for-separated-tetrahedra", {}))
+        bad += oracle_equal_pressure(case, res, scale)
         if "force_err" in res:
             bad.append(("force-raised", {"err": res["force_err"], "msg": res.get("force_msg")}))
         elif "force" in res:
@@ -307,8 +340,16 @@ def oracle_pair(case, res, res_swapped):
             if float(np.dot(f, n)) < -1e-9 * emax * max(area, 1e-300) - 1e-300:
                 bad.append(("negative-pressure", {"force_dot_normal": float(np.dot(f, n)), "area": area}))
     if res_swapped is not None:
+        # a polygon whose area is zero within the tolerance is identified with "no polygon" here: whether a
+        # degenerate intersection (a point, a segment) is reported at all is decided by rounding
+        def area_of(r):
+            if not r.get("inter"):
+                return 0.0
+            return polygon_area(np.asarray(r["plane"], dtype=float)[:3], r["poly"])
         if not res_swapped.get("ok"):
             bad.append(("raised-when-swapped", {"err": res_swapped.get("err"), "msg": res_swapped.get("msg")}))
+        elif max(area_of(res), area_of(res_swapped)) <= 1e-9 * scale * scale:
+            pass
         elif res_swapped["inter"] != res["inter"]:
             bad.append(("swap-changes-intersection", {"inter": res["inter"], "swapped": res_swapped["inter"]}))
         elif res["inter"]:
@@ -320,17 +361,86 @@ def oracle_pair(case, res, res_swapped):
     return bad
 
 
-def classify(case, res, what):
+def true_vertices(case):
+    """Vertices of the exact contact polygon {x on the equal-pressure plane : all 8 barycentric coordinates >= 0},
+    recomputed from the tetrahedra and potentials alone (numpy inverse, own plane basis; tolerance 1e-9 on the
+    dimensionless barycentric coordinates).  Returns (normal, [(vertex3d, number of face planes through it)]) or
+    None when there is no proper plane."""
+    t1, t2 = np.asarray(case["t1"], dtype=float), np.asarray(case["t2"], dtype=float)
+    try:
+        Xa = np.linalg.inv(np.vstack((t1.T, np.ones((1, 4)))))
+        Xb = np.linalg.inv(np.vstack((t2.T, np.ones((1, 4)))))
+    except np.linalg.LinAlgError:
+        return None
+    raw = (np.asarray(case["e1"], dtype=float) * float(case["E1"])).dot(Xa) - (
+        np.asarray(case["e2"], dtype=float) * float(case["E2"])).dot(Xb)
+    nn = float(np.linalg.norm(raw[:3]))
+    if not np.isfinite(nn) or nn == 0.0:
+        return None
+    n, d = raw[:3] / nn, -raw[3] / nn
+    x0 = n * d
+    u, v = plane_basis(n)
+    X = np.vstack((Xa, Xb))
+    A = np.column_stack((X[:, :3].dot(u), X[:, :3].dot(v)))
+    b = X[:, :3].dot(x0) + X[:, 3]
+    out = []
+    for i in range(8):
+        for j in range(i + 1, 8):
+            det = A[i, 0] * A[j, 1] - A[i, 1] * A[j, 0]
+            if abs(det) <= 1e-9 * np.linalg.norm(A[i]) * np.linalg.norm(A[j]):
+                continue
+            q = np.linalg.solve(np.array([A[i], A[j]]), -np.array([b[i], b[j]]))
+            lam = A.dot(q) + b
+            if np.all(lam >= -1e-9):
+                out.append((x0 + q[0] * u + q[1] * v, int(np.sum(np.abs(lam) <= 1e-9))))
+    return n, out
+
+
+def vertex_drop_class(case, res, res_swapped):
+    """input/observation class of finding F_DROP: both reported polygons lie inside the exact polygon, and a vertex of
+    the exact polygon through which three or more of the eight face planes pass (concurrent or coincident boundary
+    lines) is missing from one of them."""
+    tv = true_vertices(case)
+    if tv is None:
+        return False
+    n, V = tv
+    if not V:
+        return False
+    t1, t2 = np.asarray(case["t1"], dtype=float), np.asarray(case["t2"], dtype=float)
+    scale = max(1.0, float(np.max(np.abs(t1))), float(np.max(np.abs(t2))))
+    u, v = plane_basis(n)
+    H = hull2d([(float(np.dot(p, u)), float(np.dot(p, v))) for p, _ in V])
+    missing = False
+    for r in (res, res_swapped):
+        if r is None or not r.get("ok"):
+            return False
+        R = np.asarray(r["poly"], dtype=float).reshape(-1, 3) if r.get("inter") else np.zeros((0, 3))
+        for p in R:
+            if dist_to_hull((float(np.dot(p, u)), float(np.dot(p, v))), H) > 1e-7 * scale:
+                return False
+            if abs(float(np.dot(n, p - V[0][0]))) > 1e-7 * scale:
+                return False
+        for p, mult in V:
+            if mult >= 3 and (len(R) == 0 or float(np.min(np.linalg.norm(R - p, axis=1))) > 1e-9 * scale):
+                missing = True
+    return missing
+
+
+def classify(case, res, what, res_swapped=None):
     """finding id for a failing pair, or None (= new violation)."""
     if what in ("raised", "raised-when-swapped"):
         return None
+    if what in ("swap-changes-vertex-set", "swap-changes-intersection") and res_swapped is not None:
+        if not same_branch_class(case, res) and vertex_drop_class(case, res, res_swapped):
+            return F_DROP
     if not res.get("ok") or not res.get("inter"):
         # swap-changes-intersection with the first order not intersecting: the swapped call went through the branch
         sw = dict(case, t1=case["t2"], t2=case["t1"], e1=case["e2"], e2=case["e1"], E1=case["E2"], E2=case["E1"])
         r2 = {"X1": res["X2"], "X2": res["X1"]}
         return F_SAME if what == "swap-changes-intersection" and same_branch_class(sw, r2) else None
     if what in ("vertex-outside-tet1", "vertex-outside-tet2", "intersection-reported-for-separated-tetrahedra",
-                "swap-changes-vertex-set", "swap-changes-intersection", "vertex-off-plane"):
+                "swap-changes-vertex-set", "swap-changes-intersection", "vertex-off-plane",
+                "vertex-not-on-equal-pressure-surface"):
         poly = np.asarray(res["poly"], dtype=float)
         degenerate = len(poly) == 3 and np.all(poly == poly[0])
         if degenerate and same_branch_class(case, res):
@@ -354,7 +464,7 @@ def check_pair(ctx, case, stream, function="intersect_tetrahedron_pair"):
     for what, detail in bad:
         ctx.fail(function + ":" + what, {"kind": "pair", "case": core.jsonable(case)}, detail,
                  "C15 statement", "exact barycentric/plane/convexity/force/swap oracle",
-                 finding=classify(case, res, what))
+                 finding=classify(case, res, what, sw))
     return res, bad
 
 
@@ -463,7 +573,7 @@ def check_bodies(ctx, s1, s2, separated, stream):
         bad = oracle_pair(case, res, sw)
         ctx.branch("pair-outcome", "inter/%d" % len(res["poly"]))
         for what, detail in bad:
-            fid = classify(case, res, what)
+            fid = classify(case, res, what, sw)
             if fid == F_SAME:
                 n_same += 1
             if (what, fid) in reported:
@@ -664,6 +774,14 @@ def gen_pair(rng, stream):
         E1, E2 = float(rng.choice([0.5, 1, 1, 2, 4])), float(rng.choice([0.5, 1, 1, 2]))
         return dict(t1=t1, t2=t2, e1=e1, e2=e2, E1=E1, E2=E2, X1=X1 if ok else None, X2=X2 if ok else None,
                     label="L:" + k)
+    if stream == "M":   # malformed: all potentials zero (0/0 in the "same" exit), zero Young's modulus
+        t1, X1 = lattice_tet(rng)
+        k = rng.choice(["zero-potentials", "zero-modulus", "zero-one-side"])
+        t2, X2 = shift_tet(t1, X1, [float(rng.choice([0, 0.5, 1])) for _ in range(3)])
+        e1 = [0.0] * 4 if k != "zero-modulus" else [1.0, 0.0, 0.5, 0.0]
+        e2 = [0.0] * 4 if k == "zero-potentials" else [0.0, 1.0, 0.0, 0.5]
+        E1, E2 = (0.0, 0.0) if k == "zero-modulus" else (1.0, 1.0)
+        return dict(t1=t1, t2=t2, e1=e1, e2=e2, E1=E1, E2=E2, X1=X1, X2=X2, label="M:" + k)
     if stream == "N":   # nearly degenerate: slivers / tiny / huge, library pinv
         sc = 10 ** rng.uniform(-2, 2)
         t1 = rand_tet(rng, sc, minvol=0.05)
@@ -889,6 +1007,119 @@ def parse_model(out, mode, spec):
     return Obs(tag, nums, pts, dim)
 
 
+def hull2d(P):
+    """Andrew's monotone chain; counter-clockwise hull without collinear points"""
+    P = sorted(set(map(tuple, P)))
+    if len(P) <= 2:
+        return P
+
+    def cr(o, a, b):
+        return (a[0] - o[0]) * (b[1] - o[1]) - (a[1] - o[1]) * (b[0] - o[0])
+    lo, up = [], []
+    for q in P:
+        while len(lo) >= 2 and cr(lo[-2], lo[-1], q) <= 0:
+            lo.pop()
+        lo.append(q)
+    for q in reversed(P):
+        while len(up) >= 2 and cr(up[-2], up[-1], q) <= 0:
+            up.pop()
+        up.append(q)
+    return lo[:-1] + up[:-1]
+
+
+def seg_dist(q, a, b):
+    q, a, b = np.asarray(q), np.asarray(a), np.asarray(b)
+    ab = b - a
+    L = float(np.dot(ab, ab))
+    t = 0.0 if L == 0 else min(1.0, max(0.0, float(np.dot(q - a, ab)) / L))
+    return float(np.linalg.norm(q - (a + t * ab)))
+
+
+def dist_to_hull(q, H):
+    if len(H) == 0:
+        return float("inf")
+    if len(H) == 1:
+        return float(np.linalg.norm(np.asarray(q) - np.asarray(H[0])))
+    if len(H) == 2:
+        return seg_dist(q, H[0], H[1])
+    inside = True
+    best = float("inf")
+    for k in range(len(H)):
+        a, b = H[k], H[(k + 1) % len(H)]
+        if (b[0] - a[0]) * (q[1] - a[1]) - (b[1] - a[1]) * (q[0] - a[0]) < 0:
+            inside = False
+        best = min(best, seg_dist(q, a, b))
+    return 0.0 if inside else best
+
+
+def hull_agree(A, B, normal, tol):
+    """the two planar point sets span the same convex polygon within tol (extra points on edges or inside do not
+    matter); an empty set agrees with a set of zero area"""
+    u, v = plane_basis(normal)
+    A2 = [(float(np.dot(p, u)), float(np.dot(p, v))) for p in np.asarray(A, dtype=float).reshape(-1, 3)]
+    B2 = [(float(np.dot(p, u)), float(np.dot(p, v))) for p in np.asarray(B, dtype=float).reshape(-1, 3)]
+    HA, HB = hull2d(A2), hull2d(B2)
+
+    def area(H):
+        return 0.5 * abs(sum(H[k][0] * H[(k + 1) % len(H)][1] - H[(k + 1) % len(H)][0] * H[k][1]
+                             for k in range(len(H)))) if len(H) >= 3 else 0.0
+
+    def diam(H):
+        return max([math.dist(a, b) for a in H for b in H] + [0.0])
+    if not A2 or not B2:
+        H = HA or HB
+        if not H:
+            return ""
+        return "" if area(H) <= tol * max(diam(H), tol) else "one side empty, the other spans area %g" % area(H)
+    if area(HA) <= tol * max(diam(HA), tol) and area(HB) <= tol * max(diam(HB), tol):
+        return ""          # both degenerate (zero area): the extent along the common line is rounding noise
+    dA = max(dist_to_hull(q, HB) for q in HA)
+    dB = max(dist_to_hull(q, HA) for q in HB)
+    return "" if max(dA, dB) <= tol else "convex hulls differ by %g (tol %g)" % (max(dA, dB), tol)
+
+
+def hull_cmp(normal, ctx=None, weak=False):
+    """comparator for reported polygons: exact vertex-set agreement first; otherwise the two vertex lists must span
+    the same convex region within tol (extra points on edges / duplicates that differ in the last bits are decided
+    by rounding), and when both regions have zero area (a point or a segment: the < 3 unique vertices decision and
+    the extent are rounding noise) only the plane is compared."""
+    def note(k):
+        if ctx is not None:
+            ctx.branch("polygon-comparison", k)
+
+    def f(py_o, m_o, tol):
+        r0 = agree(py_o, m_o, tol)
+        if r0 == "":
+            note("vertex-sets-equal")
+            return ""
+        if py_o.tag[0] != "ok" or m_o.tag[0] != "ok":
+            return r0
+        r = agree(Obs(("ok",), py_o.nums), Obs(("ok",), m_o.nums), tol)
+        if r:
+            return r
+        A = py_o.pts or []
+        B = m_o.pts or []
+        rh = hull_agree(A, B, normal, tol)
+        if rh:
+            return rh
+        u, v = plane_basis(normal)
+        both = [(float(np.dot(q, u)), float(np.dot(q, v))) for q in np.asarray(list(A) + list(B)).reshape(-1, 3)]
+        H = hull2d(both)
+        ar = 0.5 * abs(sum(H[k][0] * H[(k + 1) % len(H)][1] - H[(k + 1) % len(H)][0] * H[k][1]
+                           for k in range(len(H)))) if len(H) >= 3 else 0.0
+        dm = max([math.dist(a, b) for a in H for b in H] + [0.0])
+        if ar <= tol * max(dm, tol):
+            note("zero-area-region(flag not compared)")
+            return ""
+        # same region of positive area: flags and None-ness must agree (branch ids are wildcards on the python side)
+        rt = agree(Obs(py_o.tag), Obs(m_o.tag), tol)
+        if rt:
+            return rt
+        note("same-convex-region")
+        return ""
+    return f
+
+
 class Cmp:
     """collects (python observation, model lines) and compares after one driver run"""
 
@@ -1049,6 +1280,14 @@ def corr_pair(ctx, cmp, case, stream):
     cmp.add("C15.cp", tokens(X1, X2, e1, e2, [E1], [E2]), ["i", "i", "S*"],
             Obs(("ok", "*", str(int(bool(same)))), flat(hnf)), 1e-9 * absmax(hnf),
             dict(seed, fn="cp"), branch_pos=1, with_q=False, stream=stream)
+    # conditioning of the 2-D stage (decides which comparisons are meaningful, see `conditioning`)
+    n, d = c_arr(hnf[:3]), float(hnf[3])
+    cond = None
+    if not same and np.all(np.isfinite(hnf)):
+        cond = conditioning(X1, X2, n, d, sc)
+    chk = (not same) and np.all(np.isfinite(hnf)) and bool(
+        ti.check_tetrahedra_intersect_contact_plane(t1, t2, n, d, 1e-6))
+    ill = cond is not None and cond["ill"]
     # whole pair
     try:
         inter, det = ti.intersect_tetrahedron_pair(t1, e1, X1, t2, e2, X2, E1, E2)
@@ -1058,11 +1297,23 @@ def corr_pair(ctx, cmp, case, stream):
         else:
             py = Obs(("ok", "*", str(int(bool(inter)))), pl, [tuple(p) for p in np.asarray(det[1]).tolist()], 3)
         poly = det[1]
+        if not np.all(np.isfinite(pl)) or (det[1] is not None and not np.all(np.isfinite(det[1]))):
+            # 0/0 in _handle_same_tetrahedron (all potentials zero): NaN interpreted, the model says divZero
+            py = Obs(("err", "divZero"))
     except Exception as e:  # noqa
         py = py_err(e)
         inter, poly = False, None
-    cmp.add("C15.pair", tokens(t1, e1, X1, t2, e2, X2, [E1], [E2]), ["i", "i", "s", "s", "s", "s", "P3"], py,
-            1e-9 * absmax(sc, poly if poly is not None else [1.0]), seed, branch_pos=1, with_q=lattice, stream=stream)
+    skip = ill and cond["why"] == "face-in-contact-plane"
+    weak = ill and not skip          # coincident boundary lines: compare the polygons as convex regions
+    if skip and chk:
+        ctx.count("corr:ill-conditioned-2d-stage(not compared):" + stream, key=("ill",) + key)
+        ctx.branch("conditioning", cond["why"])
+    else:
+        # with coincident lines the < 3 vertices decision itself is noise: the flag is then not compared
+        cmp.add("C15.pair", tokens(t1, e1, X1, t2, e2, X2, [E1], [E2]), ["i", "i", "s", "s", "s", "s", "P3"], py,
+                1e-9 * absmax(sc, poly if poly is not None else [1.0]), seed, branch_pos=1, with_q=lattice,
+                stream=stream, custom=hull_cmp(n if np.all(np.isfinite(n)) and np.linalg.norm(n) > 0.5
+                                               else np.array([0.0, 0.0, 1.0]), ctx))
     if same:
         try:
             pl, pg = ti._handle_same_tetrahedron(e2, t2)
@@ -1075,18 +1326,13 @@ def corr_pair(ctx, cmp, case, stream):
                 branch_pos=1, stream=stream)
         ctx.count("corr:same:" + stream, key=("same",) + key)
         return
-    n, d = c_arr(hnf[:3]), float(hnf[3])
-    chk = bool(ti.check_tetrahedra_intersect_contact_plane(t1, t2, n, d, 1e-6))
+    if cond is None:
+        return
     cmp.add("C15.chk", tokens(t1, t2, n, [d], [1e-6]), ["i"], Obs(("ok", str(int(chk)))), 0.0, dict(seed, fn="chk"),
             branch_pos=1, stream=stream)
     ctx.count("corr:chk:" + stream, key=("chk",) + key)
     # plane basis + make_halfplanes (also for pairs the check rejects: the functions are total)
-    try:
-        xa, ya = plane_basis_from_normal(n)
-    except ZeroDivisionError:
-        return
-    if not (np.all(np.isfinite(xa)) and np.all(np.isfinite(ya))):
-        return
+    xa, ya = cond["xa"], cond["ya"]
     cmp.add("C15.basis", tokens(n), ["i", "S*"], Obs(("ok", "*"), flat(xa) + flat(ya)), 1e-9, dict(seed, fn="basis"),
             branch_pos=1, stream=stream)
     ctx.count("corr:basis:" + stream, key=("basis", tuple(flat(n))))
@@ -1094,14 +1340,40 @@ def corr_pair(ctx, cmp, case, stream):
     c2p = np.vstack((xa, ya))
     X = np.vstack((X1, X2))
     H = ti.make_halfplanes(X, pp, c2p)
-    n2 = X[:, :3].dot(c2p.T)
-    mask = "".join("1" if np.linalg.norm(r) > EPS else "0" for r in n2)
+    mask = "".join("1" if v > EPS else "0" for v in cond["n2norm"])
+    noise = cond["noise_rows"]
+
+    def cmp_rows(py_o, m_o, tol):
+        """rows compared by source index; rows whose projected normal is rounding noise are ignored"""
+        if m_o.tag[0] != "ok" or len(m_o.tag) < 2 or len(m_o.tag[1]) != 8:
+            return "model output %r" % (m_o,)
+        def by_index(mk, rows):  # noqa
+            out, k = {}, 0
+            for i, c in enumerate(mk):
+                if c == "1":
+                    if k >= len(rows):
+                        return None
+                    out[i] = rows[k]
+                    k += 1
+            return out if k == len(rows) else None
+        A, B = by_index(py_o.tag[1], py_o.pts), by_index(m_o.tag[1], m_o.pts)
+        if A is None or B is None:
+            return "row count does not match the mask"
+        for i in range(8):
+            if i in noise:
+                continue
+            if (i in A) != (i in B):
+                return "row %d kept by one side only" % i
+            if i in A and max(abs(x - y) for x, y in zip(A[i], B[i])) > tol:
+                return "row %d: %r vs %r" % (i, A[i], B[i])
+        return ""
     cmp.add("C15.mh", tokens(8, X, pp, xa, ya), ["m", "P4"], Obs(("ok", mask), [], [tuple(r) for r in H.tolist()], 4),
-            1e-9 * absmax(H, xs), dict(seed, fn="mh", X=X.tolist(), plane_point=pp.tolist(), cart2plane=c2p.tolist()),
-            branch_pos=1, ordered=True, stream=stream)
+            1e-9 * absmax(H[[k for k in range(len(H))]] if not noise else [1.0], xs, sc),
+            dict(seed, fn="mh", X=X.tolist(), plane_point=pp.tolist(), cart2plane=c2p.tolist()),
+            branch_pos=1, stream=stream, custom=cmp_rows)
     ctx.count("corr:mh:" + stream, key=("mh",) + key)
     old = old_make_halfplanes()
-    if old is not None:
+    if old is not None and not noise:
         g = [7.0, -7.0, 3.0, 5.0]
         Ho = old(X, pp, c2p, g)
         cmp.add("C15.mh.before_fix", tokens(8, X, pp, xa, ya, g), ["m", "P4"],
@@ -1110,12 +1382,17 @@ def corr_pair(ctx, cmp, case, stream):
         ctx.count("corr:mh.before_fix:" + stream, key=("mho",) + key)
         ctx.branch("mh.before_fix", "differs-from-current" if (Ho.shape != H.shape or not np.array_equal(Ho, H))
                    else "same-as-current")
+    if skip:
+        if not chk:
+            ctx.count("corr:ill-conditioned-2d-stage(not compared):" + stream, key=("ill",) + key)
+            ctx.branch("conditioning", cond["why"])
+        return
+    ctx.branch("conditioning", cond["why"] if weak else "well-conditioned")
     # compute_contact_polygon (and its stages)
     try:
         v2 = hp.intersect_halfplanes(H)
-        v2err = None
-    except Exception as e:  # noqa
-        v2, v2err = None, e
+    except Exception:  # noqa
+        v2 = None
     try:
         pg = ti.compute_contact_polygon(X1, X2, n, d)
         py = Obs(("ok", "*"), [], [tuple(p) for p in np.asarray(pg).tolist()], 3)
@@ -1123,7 +1400,7 @@ def corr_pair(ctx, cmp, case, stream):
         py = py_err(e)
         pg = None
     cmp.add("C15.poly", tokens(X1, X2, n, [d]), ["i", "P3"], py, 1e-9 * absmax(sc, pg if pg is not None else [1.0]),
-            dict(seed, fn="poly"), branch_pos=1, with_q=lattice, stream=stream)
+            dict(seed, fn="poly"), branch_pos=1, with_q=lattice, stream=stream, custom=hull_cmp(n, ctx))
     ctx.count("corr:poly:" + stream, key=("poly",) + key)
     if v2 is not None and len(v2) >= 1:
         v2 = c_arr(v2)
@@ -1146,6 +1423,56 @@ def corr_pair(ctx, cmp, case, stream):
                     Obs(("ok", str(len(tri))), flat(com) + flat(force) + [float(area), tf]),
                     1e-7 * fs * absmax(poly), dict(seed, fn="force"), branch_pos=1, stream=stream)
             ctx.count("corr:force:" + stream, key=("force",) + key)
+
+
+def conditioning(X1, X2, n, d, sc):
+    """Is the 2-D stage of this pair decided by rounding noise?  (computed from the inputs with numpy, not from the
+    model.)  Two situations make the float result depend on the last bit of a dot product, so that the model at
+    Float and the implementation may legitimately differ: (a) a face (nearly) parallel to the contact plane whose
+    projected normal is neither exactly zero nor well above rounding noise *and* whose offset is tiny as well (the
+    boundary line then passes through the region of interest in an arbitrary direction); (b) two boundary lines that
+    are parallel up to rounding but not recognised as parallel by the absolute test `abs(denom) < EPSILON`
+    (their 'intersection' is an arbitrary point of the common line).  Such inputs are still run through the
+    oracle of `search`; they are only excluded from the point-by-point comparison with the model."""
+    from distance3d.utils import plane_basis_from_normal
+    try:
+        xa, ya = plane_basis_from_normal(n)
+    except ZeroDivisionError:
+        return None
+    if not (np.all(np.isfinite(xa)) and np.all(np.isfinite(ya))):
+        return None
+    X = np.vstack((X1, X2))
+    c2p = np.vstack((xa, ya))
+    pp = n * d
+    n2 = X[:, :3].dot(c2p.T)
+    n2norm = np.linalg.norm(n2, axis=1)
+    nf = np.linalg.norm(X[:, :3], axis=1)
+    ds = -X[:, 3] - X[:, :3].dot(pp)
+    noise_rows, harmful = set(), False
+    for i in range(8):
+        if 1e-3 * EPS < n2norm[i] < 1e-6 * max(nf[i], 1e-300) or (n2norm[i] <= 1e-3 * EPS and n2norm[i] != 0.0
+                                                                  and n2norm[i] > 1e-3 * EPS * 1e-3):
+            noise_rows.add(i)
+            if abs(ds[i]) < 1e6 * sc * n2norm[i]:
+                harmful = True
+        elif abs(n2norm[i] - EPS) < 0.5 * EPS:
+            noise_rows.add(i)
+    why = None
+    if harmful:
+        why = "face-in-contact-plane"
+    else:
+        good = [i for i in range(8) if i not in noise_rows and n2norm[i] > EPS]
+        for a in range(len(good)):
+            for b in range(a + 1, len(good)):
+                i, j = good[a], good[b]
+                cr = abs(n2[i][0] * n2[j][1] - n2[i][1] * n2[j][0])
+                if cr != 0.0 and cr < 1e-6 * n2norm[i] * n2norm[j] and cr > 1e-3 * EPS:
+                    # parallel up to rounding; harmful only if the two lines (nearly) coincide
+                    pi = n2[i] * ds[i] / n2norm[i] ** 2
+                    pj = n2[j] * ds[j] / n2norm[j] ** 2
+                    if abs(float(np.dot(n2[i], pj - pi))) / n2norm[i] < 1e-6 * sc:
+                        why = "coincident-boundary-lines"
+    return {"ill": why is not None, "why": why, "noise_rows": noise_rows, "n2norm": n2norm, "xa": xa, "ya": ya}
 
 
 _OLD = {}
@@ -1216,6 +1543,13 @@ def corpus_pairs():
     tc, Xc = shift_tet(UNIT, UNIT_X, [10.0, 0.0, 0.0])
     out.append(dict(t1=UNIT, t2=tc, e1=[0.0, 0.0, 0.0, 1.0], e2=[0.0, 0.0, 0.0, 1.0], E1=1.0, E2=1.0, X1=UNIT_X, X2=Xc,
                     label="corpus:same-branch-equal-gradient"))
+    # F_DROP witness: stacked elements with two pairs of identical face planes (see known_findings.d/C15.json)
+    out.append(dict(t1=[[1.5, 0.5, 1.5], [1.5, -0.5, 1.5], [2.5, 0.5, 1.5], [2.0, 0.0, 2.0]], e1=[1.0, 0.0, 0.5, 0.5],
+                    E1=0.5, X1=[[-1.0, 1.0, 0.0, 2.0], [0.0, -1.0, -1.0, 2.0], [1.0, 0.0, -1.0, 0.0],
+                                [0.0, 0.0, 2.0, -3.0]],
+                    t2=[[1.0, 0.5, 1.5], [1.0, -0.5, 1.5], [2.0, 0.5, 1.5], [1.5, 0.0, 2.0]], e2=[2.0, 0.0, 0.5, 0.0],
+                    E2=1.0, X2=[[-1.0, 1.0, 0.0, 1.5], [0.0, -1.0, -1.0, 2.0], [1.0, 0.0, -1.0, 0.5],
+                                [0.0, 0.0, 2.0, -3.0]], label="corpus:vertex-drop"))
     return out
 
 
@@ -1245,7 +1579,7 @@ def correspondence(ctx):
     npairs = ctx.budget(320, 8000)
     for k in range(npairs):
         u = k % 20
-        stream = "L" if u < 8 else ("G" if u < 14 else ("S" if u < 17 else "N"))
+        stream = "L" if u < 8 else ("G" if u < 14 else ("S" if u < 17 else ("N" if u < 19 else "M")))
         corr_pair(ctx, cmp, gen_pair(ctx.rng, stream), stream)
     # tetrahedron pairs met in body contacts (library pinv, mesh elements)
     nb = ctx.budget(3, 60)
@@ -1349,7 +1683,64 @@ def replay(ctx, payload):
     return not c.failing
 
 
-PARTIAL = {}
-ASSUMPTIONS = []
-TRUSTED = []
-MANIFEST = dict(text="", note="", technique="", design="§7 C15")
+PARTIAL = {
+    "polygon_convex_ccw": "convexity / counter-clockwise order of the returned vertex list: needs monotonicity of atan2 around "
+                          "an interior point and that all kept points are boundary points of the intersection; not proved "
+                          "(the theorems hold for an arbitrary atan2 and only use that order_points permutes and "
+                          "filter_unique_points drops points); checked by the oracle on the real code",
+    "tetrahedron_order_independence": "only swap_contact_plane-level facts are used: vertex_inside_both_tetrahedra / "
+                                      "vertex_on_plane are symmetric in the two tetrahedra (soundness of every reported vertex in "
+                                      "either order); that both orders report the same vertex *set* (completeness, basis "
+                                      "independence of the skip/parallel tests) is not proved; checked by the oracle (argument swap), "
+                                      "which found F-C15-vertex-drop and F-C15-same-branch",
+    "halfplane_buffer_sufficient_partial": "proved under GeneralPosition (no intersection of line i with a later line within the "
+                                           "EPSILON band of a third later line): at most 2n rows are written; and unconditionally "
+                                           "for n <= 6 (halfplane_buffer_sufficient_small). Not proved: that the 8 half-planes of two "
+                                           "tetrahedra never yield more than 23 valid pairs when lines are concurrent (exact-arithmetic "
+                                           "count for two tetrahedra sharing an edge in the contact plane is 20; the randomised hunt of "
+                                           "this harness has not exceeded 15); halfplane_buffer_overflow shows the buffer is too small "
+                                           "for arbitrary 8 half-planes",
+    "pressure_nonneg": "pressure_lower_bound gives total_force >= lo*(sum e_k E)*area from a lower bound lo on the barycentric "
+                       "coordinates of the polygon vertices (pinv and solve contracts); with lo = -EPSILON from "
+                       "vertex_inside_both_tetrahedra this is 'non-negative up to EPSILON', for kept rows only; exact "
+                       "non-negativity (lo = 0) needs vertices exactly inside, which the EPSILON slack of the code does not give",
+    "skipped_rows": "for a face parallel to the contact plane (row skipped) the theorem bounds the coordinate by its value at plane_point "
+                    "+- EPSILON*(|q0|+|q1|); that this value is positive follows from check_tetrahedra_intersect_contact_plane (both "
+                    "sides of the plane) but is not proved here",
+}
+ASSUMPTIONS = [
+    "np.linalg.pinv in barycentric_transforms returns X with X.[[v^T],[1 1 1 1]] = I (IsBaryTransform); the rows X1, X2 are "
+    "inputs of the model",
+    "np.linalg.solve(X, b) in compute_contact_force returns res with X.res = b; the harness hands the inverse matrix to the "
+    "model's solver parameter",
+    "np.argsort on <= 16 keys is a stable insertion sort (only the permutation property is used by the theorems)",
+    "float rounding is not modelled (theorems at exact real arithmetic); F-C15-vertex-drop is a rounding defect and therefore "
+    "has no counterexample theorem, only a replayable witness",
+    "the swap comparison of the oracle identifies polygons whose area is <= 1e-9*scale^2 with the empty polygon",
+]
+TRUSTED = ["modelled: _halfplanes.py (all 4 functions), _tetrahedron_intersection.py (contact_plane, _handle_same_tetrahedron, "
+           "check_tetrahedra_intersect_contact_plane, make_halfplanes, order_points, filter_unique_points, project_polygon_to_3d, "
+           "compute_contact_polygon, intersect_tetrahedron_pair), compute_contact_force, utils.plane_basis_from_normal; "
+           "intersect_tetrahedron_pairs / find_contact_surface / contact_surface_forces are loops over these and are only "
+           "exercised by the oracle (bodies from the make_* factories)",
+           "makeHalfplanes_asIs_before_fix is compared with the pre-repair source taken from the repository's git history"]
+
+MANIFEST = dict(
+    text=("Lean theorems on the executable model of the contact-polygon code at exact real arithmetic, for all inputs: "
+          "vertex_in_all_halfplanes (every 2-D point returned by intersect_halfplanes satisfies all half-plane tests up to "
+          "EPSILON and lies on two non-parallel boundary lines), halfplane_is_trace (the 2-D test value equals the "
+          "barycentric coordinate of the lifted 3-D point, any cart2plane), vertex_on_plane, vertex_inside_both_tetrahedra, "
+          "pair_polygon_spec (regular exit of intersect_tetrahedron_pair), barycentric_lower_bound (pinv contract), "
+          "force_along_normal, area_nonneg, no_valid_point_no_polygon, reported_pairs_branches; obligation/defect theorems: "
+          "halfplane_buffer_sufficient_partial (general position: <= 2n rows), halfplane_buffer_sufficient_small (n <= 6), "
+          "swap_contact_plane, halfplane_buffer_overflow (8 concurrent lines: indexOOB), "
+          "halfplane_buffer_assert_asIs, makeHalfplanes_asIs_before_fix_gap, same_branch_asIs_counterexample. The model is "
+          "compared function by function with the implementation (lattice inputs exactly at Rat, random inputs at Float, "
+          "body contacts) and an independent oracle (exact barycentric coordinates, plane residual, convexity, force, swap, "
+          "separating axes) runs on tetrahedron pairs and factory bodies."),
+    note=("trusted: Lean kernel + Mathlib, axioms propext/Classical.choice/Quot.sound; exact-real semantics (rounding not "
+          "modelled); pinv/solve/argsort as parameters with contracts; correspondence harness (sampling); partial: convexity "
+          "of the angular order, order independence of the vertex set, buffer bound for n = 8. Known findings: "
+          "F-C15-same-branch, F-C15-vertex-drop, F-C15-halfplane-buffer."),
+    technique="Lean 4 proof on hand-written model + correspondence (Rat-exact on lattice tetrahedra, Float on random ones)",
+    design="§7 C15")
